@@ -919,7 +919,7 @@ class SetIndex(BaseSetIndexSortValues):
                     upsample=self.upsample,
                 )[3]
 
-            if presorted and self.npartitions == self.frame.npartitions:
+            if presorted and self._npartitions_input == self.frame.npartitions:
                 index_set = SetIndexBlockwise(
                     self.frame, self._other, self.drop, divisions, self.append
                 )
@@ -1082,7 +1082,7 @@ class SortValues(BaseSetIndexSortValues):
             self._divisions_ascending,
             upsample=self.upsample,
         )
-        if presorted and self.npartitions == self.frame.npartitions:
+        if presorted and self._npartitions_input == self.frame.npartitions:
             return SortValuesBlockwise(
                 self.frame, self.sort_function, self.sort_function_kwargs
             )
